@@ -25,6 +25,8 @@ use saito_core::core::consensus::slip::{Slip, SlipType};
 use saito_core::core::consensus::transaction::{Transaction, TransactionType};
 use saito_core::core::consensus::wallet::Wallet;
 use saito_core::core::defs::{SaitoPrivateKey, SaitoPublicKey, SaitoUTXOSetKey, UtxoSet};
+use saito_core::core::io::storage::Storage;
+use saito_core::core::util::balance_snapshot::BalanceSnapshot;
 use tokio::sync::RwLock;
 use verif_harness::common::{jstr, Args, Summary};
 use verif_harness::gal;
@@ -35,6 +37,7 @@ const ID_EDGE: &str = "window-edge-shortfall";
 const ID_WRAP: &str = "request-wrap-release";
 const ID_CAP: &str = "input-cap-255";
 const ID_STALE: &str = "unwind-stale-coordinates";
+const ID_BOUND: &str = "bound-input-reselected";
 
 type Rows = Vec<Vec<u64>>;
 type K6 = [u64; 6];
@@ -221,6 +224,8 @@ struct Rec {
     creates_real_input: u64,
     winds_changed: u64,
     unwinds: u64,
+    snapshots: u64,
+    bound_calls: u64,
     panics: Vec<u64>,
     notes: Vec<String>,
 }
@@ -236,6 +241,8 @@ impl Rec {
             creates_real_input: 0,
             winds_changed: 0,
             unwinds: 0,
+            snapshots: 0,
+            bound_calls: 0,
             panics: vec![],
             notes: vec![],
         }
@@ -274,18 +281,13 @@ fn check_balance(w: &Wallet) -> Result<(), String> {
     }
 }
 
+/// the block id / transaction index the wallet recorded for the slip are those of its key
 fn key_fields_match(w: &Wallet, k: &SaitoUTXOSetKey) -> bool {
     match w.slips.get(k) {
         None => true,
         Some(s) => {
-            let mut x = Slip::default();
-            x.public_key = w.public_key;
-            x.amount = s.amount;
-            x.block_id = s.block_id;
-            x.tx_ordinal = s.tx_ordinal;
-            x.slip_index = s.slip_index;
-            x.slip_type = s.slip_type;
-            x.get_utxoset_key() == *k
+            s.block_id == u64::from_be_bytes(k[33..41].try_into().unwrap())
+                && s.tx_ordinal == u64::from_be_bytes(k[41..49].try_into().unwrap())
         }
     }
 }
@@ -296,6 +298,8 @@ struct CreateCall {
     fee: u64,
     latest: u64,
     gp: u64,
+    /// a single payment goes through the Transaction::create wrapper
+    single: bool,
 }
 
 /// runs Transaction::create_with_multiple_payments on the real wallet, records the
@@ -325,15 +329,19 @@ fn do_create(
         call.gp
     );
     let res = catch_unwind(AssertUnwindSafe(|| {
-        Transaction::create_with_multiple_payments(
-            w,
-            call.keys.clone(),
-            call.payments.clone(),
-            call.fee,
-            None,
-            call.latest,
-            call.gp,
-        )
+        if call.single && call.keys.len() == 1 && call.payments.len() == 1 {
+            Transaction::create(w, call.keys[0], call.payments[0], call.fee, false, None, call.latest, call.gp)
+        } else {
+            Transaction::create_with_multiple_payments(
+                w,
+                call.keys.clone(),
+                call.payments.clone(),
+                call.fee,
+                None,
+                call.latest,
+                call.gp,
+            )
+        }
     }));
     let pay128: u128 = call.payments.iter().map(|p| *p as u128).sum();
     let fee_eff = if call.fee > pre.get_available_balance() { 0 } else { call.fee };
@@ -423,38 +431,53 @@ fn do_create(
             if tx.from.iter().any(|s| s.amount > 0) {
                 rec.creates_real_input += 1;
             }
-            // ---- oracles ----
-            let mut bad: Vec<String> = vec![];
+            // ---- oracles; every failed check is attributed separately ----
+            // a slip of another key was put into this wallet by hand (add_slip / snapshot):
+            // the wallet signs inputs with its own key, nothing about such a call is claimed
+            let misuse = selected.iter().any(|k| k[0..33] != pre.public_key);
+            #[derive(PartialEq, Clone, Copy)]
+            enum Chk {
+                Dup,
+                Exceed,
+                NotUnspent,
+                Conserve,
+                Commit,
+                Validate,
+            }
+            let mut bad: Vec<(Chk, String)> = vec![];
             let in_keys: Vec<SaitoUTXOSetKey> = tx.from.iter().map(|s| s.get_utxoset_key()).collect();
             let uniq: BTreeSet<&SaitoUTXOSetKey> = in_keys.iter().collect();
             if uniq.len() != in_keys.len() {
-                bad.push("the transaction references the same output twice".to_string());
+                bad.push((Chk::Dup, "the transaction references the same output twice".to_string()));
             }
             let sum_in: u128 = tx.from.iter().map(|s| s.amount as u128).sum();
             let sum_out: u128 = tx.to.iter().map(|s| s.amount as u128).sum();
             if sum_out > sum_in {
-                bad.push(format!("outputs {} exceed inputs {}", sum_out, sum_in));
+                bad.push((Chk::Exceed, format!("outputs {} exceed inputs {}", sum_out, sum_in)));
             }
             for (s, k) in tx.from.iter().zip(in_keys.iter()) {
                 if s.amount > 0 && !pre.unspent_slips.contains(k) {
-                    bad.push(format!(
-                        "input {}:{}:{} amount {} is not an output the wallet lists as unspent",
-                        s.block_id, s.tx_ordinal, s.slip_index, s.amount
+                    bad.push((
+                        Chk::NotUnspent,
+                        format!(
+                            "input {}:{}:{} amount {} is not an output the wallet lists as unspent",
+                            s.block_id, s.tx_ordinal, s.slip_index, s.amount
+                        ),
                     ));
                     break;
                 }
             }
             if call.payments.len() <= 254 && sum_in != sum_out + fee_eff as u128 {
-                bad.push(format!(
-                    "value not conserved: inputs {} != outputs {} + fee {}",
-                    sum_in, sum_out, fee_eff
+                bad.push((
+                    Chk::Conserve,
+                    format!("value not conserved: inputs {} != outputs {} + fee {}", sum_in, sum_out, fee_eff),
                 ));
             }
             let spent_sum: u128 = selected.iter().filter_map(|k| pre.slips.get(k)).map(|s| s.amount as u128).sum();
-            if spent_sum != sum_in && !cap {
-                bad.push(format!(
-                    "the wallet committed {} but the transaction consumes {}",
-                    spent_sum, sum_in
+            if spent_sum != sum_in {
+                bad.push((
+                    Chk::Commit,
+                    format!("the wallet committed {} but the transaction consumes {}", spent_sum, sum_in),
                 ));
             }
             let mut validates = true;
@@ -463,26 +486,33 @@ fn do_create(
                 tx.generate(&pre.public_key, 0, 0);
                 validates = tx.validate(utxo, chain, true);
                 if !validates {
-                    bad.push("the transaction does not validate against the ledger it was built on".to_string());
+                    bad.push((
+                        Chk::Validate,
+                        "the transaction does not validate against the ledger it was built on".to_string(),
+                    ));
                 }
             }
             // more than u64::MAX held in total: made-up amounts, every sum is meaningless
             let held: u128 = pre.slips.values().map(|s| s.amount as u128).sum();
-            if held >= (1u128 << 64) {
+            if held >= (1u128 << 64) || misuse {
                 bad.clear();
             }
             if !bad.is_empty() {
-                let what = bad.join("; ");
-                if edge {
-                    rec.known.push((ID_EDGE, what));
-                } else if wrap && !dbg {
-                    rec.known.push((ID_WRAP, what));
-                } else if cap {
-                    rec.known.push((ID_CAP, what));
-                } else if stale {
-                    rec.known.push((ID_STALE, what));
-                } else {
-                    rec.failures.push(format!("create(payments {:?}, fee {}): {}", call.payments, call.fee, what));
+                // what each listed finding explains
+                let classes: [(bool, &'static str, &[Chk]); 4] = [
+                    (edge, ID_EDGE, &[Chk::Exceed, Chk::Conserve, Chk::Validate]),
+                    (wrap && !dbg, ID_WRAP, &[Chk::Exceed, Chk::Conserve, Chk::Validate]),
+                    (cap, ID_CAP, &[Chk::Exceed, Chk::Conserve, Chk::Commit, Chk::Validate]),
+                    (stale, ID_STALE, &[Chk::NotUnspent, Chk::Validate]),
+                ];
+                for (chk, what) in &bad {
+                    match classes.iter().find(|(holds, _, explains)| *holds && explains.contains(chk)) {
+                        Some((_, id, _)) => rec.known.push((*id, what.clone())),
+                        None => rec.failures.push(format!(
+                            "create(payments {:?}, fee {}): {}",
+                            call.payments, call.fee, what
+                        )),
+                    }
                 }
                 return Ok(None);
             }
@@ -573,6 +603,7 @@ fn check_ledger(
     window_top: u64,
     gp: u64,
     committed: &BTreeSet<SaitoUTXOSetKey>,
+    reorganised: bool,
 ) -> Result<(), (bool, String)> {
     let low = window_top.saturating_sub(gp);
     let expected: BTreeSet<SaitoUTXOSetKey> = utxo
@@ -595,6 +626,12 @@ fn check_ledger(
         missing.iter().map(|k| show(k)).collect::<Vec<_>>(),
         extra.iter().map(|k| show(k)).collect::<Vec<_>>()
     );
+    // after an unwind the wallet legitimately holds again an output that the unwound block had
+    // spent and that has meanwhile dropped below the window (the ledger holds it too; the wallet
+    // expires it with the next block it winds)
+    if reorganised && missing.is_empty() && extra.iter().all(|k| utxo.get(*k) == Some(&true) && key_bid(k) < low) {
+        return Ok(());
+    }
     let only_stale = missing.is_empty() && extra.iter().all(|k| !key_fields_match(w, k));
     Err((only_stale, msg))
 }
@@ -643,6 +680,8 @@ impl Sim {
     fn wallet_panic(&mut self, op: String, msg: String, ctx: &str) {
         let site = if ctx == "pending" {
             10
+        } else if ctx == "snapshot" && msg.contains("left != right") {
+            11
         } else if msg.contains("subtract with overflow") {
             3
         } else if msg.contains("add with overflow") {
@@ -675,7 +714,7 @@ impl Sim {
             self.rec.failures.push(format!("after {}: {}", ctx, m));
         }
         if with_ledger {
-            match check_ledger(&self.w, &self.utxo, self.maxseen, self.gp, &self.committed) {
+            match check_ledger(&self.w, &self.utxo, self.maxseen, self.gp, &self.committed, self.rec.unwinds > 0) {
                 Ok(()) => {}
                 Err((true, m)) => self.rec.known.push((ID_STALE, format!("after {}: {}", ctx, m))),
                 Err((false, m)) => self.rec.failures.push(format!("after {}: {}", ctx, m)),
@@ -881,8 +920,22 @@ fn pick_request(rng: &mut Rng, w: &Wallet, latest: u64, gp: u64) -> (Vec<u64>, u
         .filter_map(|k| w.slips.get(k))
         .filter(|s| s.block_id > thr)
         .fold(0u64, |a, s| a.saturating_add(s.amount));
-    let total = match rng.below(16) {
+    // the eligible amounts in the order generate_slips will meet them: a request equal to the first
+    // one / the first two ends the selection exactly at a slip boundary (`nolan_in >= requested`)
+    let in_order: Vec<u64> = w
+        .unspent_slips
+        .iter()
+        .filter_map(|k| w.slips.get(k))
+        .filter(|s| s.block_id > thr)
+        .map(|s| s.amount)
+        .collect();
+    let first = in_order.first().copied().unwrap_or(0);
+    let first_two = first.saturating_add(in_order.get(1).copied().unwrap_or(0));
+    let total = match rng.below(20) {
         0 => 0,
+        16 | 17 => first,
+        18 => first_two,
+        19 => first_two.saturating_add(1).min(bal),
         1 => 1,
         2 => bal / 3,
         3 => bal / 2,
@@ -928,10 +981,172 @@ fn pick_request(rng: &mut Rng, w: &Wallet, latest: u64, gp: u64) -> (Vec<u64>, u
     (pays, fee)
 }
 
+/// Oracle-only probe of the NFT builders (not modelled: nothing is recorded after it, so it
+/// runs at the end of a case). create_bound_transaction on one of the wallet's Normal slips,
+/// the built transaction wound as the next block, then create_send_bound_transaction.
+fn bound_probe(sim: &mut Sim, rng: &mut Rng, rt: &tokio::runtime::Runtime, deposit_choice: u64) {
+    let (pk2, _) = keypair(2);
+    let me = sim.pk;
+    let latest = sim.top();
+    let gp = sim.gp;
+    let mut keys: Vec<SaitoUTXOSetKey> =
+        sim.w.unspent_slips.iter().filter(|k| k[58] == SlipType::Normal as u8 && key_fields_match(&sim.w, k)).cloned().collect();
+    keys.sort();
+    if keys.is_empty() {
+        return;
+    }
+    let k = keys[rng.below(keys.len() as u64) as usize];
+    let input = Slip::parse_slip_from_utxokey(&k).unwrap();
+    let deposit = match deposit_choice {
+        0 => input.amount,
+        1 => input.amount / 2 + 1,
+        2 => input.amount + 1,
+        _ => input.amount.saturating_add(rng.range(1, 5000)),
+    };
+    let pre = sim.w.clone();
+    sim.rec.bound_calls += 1;
+    let r = catch_unwind(AssertUnwindSafe(|| {
+        rt.block_on(sim.w.create_bound_transaction(
+            input.amount,
+            input.block_id,
+            input.tx_ordinal,
+            input.slip_index as u64,
+            deposit,
+            vec![],
+            &me,
+            None,
+            latest,
+            gp,
+            "probe".to_string(),
+        ))
+    }));
+    let tx = match r {
+        Err(e) => {
+            let msg = panic_msg(e);
+            if msg.contains("subtract with overflow") {
+                sim.rec.failures.push(format!("create_bound_transaction: `available_balance -=` underflowed: {}", msg));
+            } else {
+                sim.rec.notes.push(format!("create_bound_transaction panicked: {}", msg));
+            }
+            return;
+        }
+        Ok(Err(_)) => {
+            if sim.w != pre {
+                sim.rec.failures.push("create_bound_transaction returned Err but changed the wallet".to_string());
+            }
+            return;
+        }
+        Ok(Ok(tx)) => tx,
+    };
+    if let Err(m) = check_balance(&sim.w) {
+        sim.rec.failures.push(format!("after create_bound_transaction: {}", m));
+    }
+    let in_keys: Vec<SaitoUTXOSetKey> = tx.from.iter().map(|s| s.get_utxoset_key()).collect();
+    let uniq: BTreeSet<&SaitoUTXOSetKey> = in_keys.iter().collect();
+    let mut bound_defect: Vec<String> = vec![];
+    if uniq.len() != in_keys.len() {
+        bound_defect.push(format!(
+            "create_bound_transaction(input {}:{}:{} amount {}, deposit {}) references the same output twice",
+            input.block_id, input.tx_ordinal, input.slip_index, input.amount, deposit
+        ));
+    }
+    for (s, key) in tx.from.iter().zip(in_keys.iter()) {
+        if s.amount > 0 && !pre.unspent_slips.contains(key) {
+            let m = "create_bound_transaction: an input is not an output the wallet listed as unspent".to_string();
+            // top-up slips come from generate_slips: stale coordinates after an unwind
+            let stale = pre.unspent_slips.iter().any(|q| !sim.w.unspent_slips.contains(q) && !key_fields_match(&pre, q));
+            if stale {
+                sim.rec.known.push((ID_STALE, m));
+            } else {
+                sim.rec.failures.push(m);
+            }
+        }
+        if s.amount > 0 && sim.w.unspent_slips.contains(key) {
+            bound_defect.push(format!(
+                "create_bound_transaction leaves its input {}:{}:{} amount {} in unspent_slips / available_balance",
+                s.block_id, s.tx_ordinal, s.slip_index, s.amount
+            ));
+        }
+    }
+    let count = |l: &Vec<Slip>| -> u128 { l.iter().filter(|s| s.slip_type != SlipType::Bound).map(|s| s.amount as u128).sum() };
+    let (sum_in, sum_out) = (count(&tx.from), count(&tx.to));
+    let distinct_in: u128 = {
+        let mut seen = BTreeSet::new();
+        tx.from.iter().zip(in_keys.iter()).filter(|(s, k)| s.slip_type != SlipType::Bound && seen.insert(**k)).map(|(s, _)| s.amount as u128).sum()
+    };
+    if sum_out > distinct_in {
+        let m = format!(
+            "create_bound_transaction: outputs {} exceed the distinct inputs {} (inputs as listed {})",
+            sum_out, distinct_in, sum_in
+        );
+        // the builder has no balance check of its own: only a request the other eligible slips
+        // could have funded is judged
+        let thr = latest.saturating_sub(gp.wrapping_sub(1));
+        let others: u128 = pre
+            .unspent_slips
+            .iter()
+            .filter(|key| **key != k)
+            .filter_map(|key| pre.slips.get(key))
+            .filter(|s| s.block_id > thr)
+            .map(|s| s.amount as u128)
+            .sum();
+        let additional = deposit.saturating_sub(input.amount) as u128;
+        if uniq.len() != in_keys.len() {
+            bound_defect.push(m);
+        } else if others >= additional {
+            sim.rec.failures.push(m);
+        }
+    }
+    for d in bound_defect {
+        sim.rec.known.push((ID_BOUND, d));
+    }
+    // the transaction lands in the next block; the wallet records the NFT
+    let mut t2 = tx.clone();
+    t2.generate(&me, 0, sim.top() + 1);
+    let b = mk_block(sim.top() + 1, vec![t2], &me, true);
+    if catch_unwind(AssertUnwindSafe(|| sim.w.on_chain_reorganization(&b, true, gp))).is_err() {
+        sim.rec.notes.push("winding the bound transaction panicked".to_string());
+        return;
+    }
+    if let Err(m) = check_balance(&sim.w) {
+        sim.rec.failures.push(format!("after winding the bound transaction: {}", m));
+    }
+    if sim.w.nfts.is_empty() {
+        sim.rec.failures.push("the wallet did not record the NFT it received".to_string());
+        return;
+    }
+    let nft = sim.w.nfts[0].clone();
+    let pre2 = sim.w.clone();
+    let r = catch_unwind(AssertUnwindSafe(|| rt.block_on(sim.w.create_send_bound_transaction(1, nft.id.clone(), vec![], &pk2))));
+    match r {
+        Err(e) => sim.rec.notes.push(format!("create_send_bound_transaction panicked: {}", panic_msg(e))),
+        Ok(Err(_)) => sim.rec.failures.push("create_send_bound_transaction refused an NFT the wallet holds".to_string()),
+        Ok(Ok(stx)) => {
+            let ks: Vec<SaitoUTXOSetKey> = stx.from.iter().map(|s| s.utxoset_key).collect();
+            if ks != vec![nft.slip1, nft.slip2, nft.slip3] {
+                sim.rec.failures.push("create_send_bound_transaction does not spend the three slips of the NFT".to_string());
+            }
+            let u: BTreeSet<&SaitoUTXOSetKey> = ks.iter().collect();
+            if u.len() != ks.len() {
+                sim.rec.failures.push("create_send_bound_transaction references the same output twice".to_string());
+            }
+            if stx.to.len() != 3 || stx.to[1].public_key != pk2 || stx.to[1].amount != stx.from[1].amount {
+                sim.rec.failures.push("create_send_bound_transaction does not hand the deposit to the recipient".to_string());
+            }
+            if sim.w.nfts.iter().any(|n| n.id == nft.id) {
+                sim.rec.failures.push("the sent NFT is still listed by the wallet".to_string());
+            }
+            if sim.w.get_available_balance() != pre2.get_available_balance() || sim.w.unspent_slips != pre2.unspent_slips {
+                sim.rec.failures.push("create_send_bound_transaction changed the balance / unspent set".to_string());
+            }
+        }
+    }
+}
+
 // ------------------------------------------------------------------ case kinds
 
 /// reorganisation-tolerant chain: wind / unwind (stack discipline) / create / pending
-fn case_chain(rng: &mut Rng, dbg: bool, len: usize) -> Rec {
+fn case_chain(rng: &mut Rng, dbg: bool, len: usize, rt: &tokio::runtime::Runtime) -> Rec {
     let gp = *rng.pick(&[3u64, 3, 4, 5, 8]);
     let mut sim = Sim::new("chain", gp, dbg);
     let (pk2, _) = keypair(2);
@@ -962,7 +1177,7 @@ fn case_chain(rng: &mut Rng, dbg: bool, len: usize) -> Rec {
             if rng.chance(1, 12) && !keys.is_empty() {
                 keys[0] = sim.pk;
             }
-            sim.create(CreateCall { keys, payments: pays, fee, latest, gp }, true);
+            sim.create(CreateCall { keys, payments: pays, fee, latest, gp, single: rng.chance(1, 2) }, true);
         } else if !sim.built.is_empty() {
             let t = sim.built[rng.below(sim.built.len() as u64) as usize].clone();
             let h = sim.tab.h(&t.hash_for_signature.unwrap());
@@ -972,11 +1187,15 @@ fn case_chain(rng: &mut Rng, dbg: bool, len: usize) -> Rec {
             sim.rec.push(vec![op], rows);
         }
     }
+    if !sim.dead && rng.chance(1, 2) {
+        let choice = rng.below(4);
+        bound_probe(&mut sim, rng, rt, choice);
+    }
     sim.rec
 }
 
 /// arbitrary API-level sequences (no ledger): every public mutator
-fn case_raw(rng: &mut Rng, dbg: bool, len: usize) -> Rec {
+fn case_raw(rng: &mut Rng, dbg: bool, len: usize, rt: &tokio::runtime::Runtime) -> Rec {
     let gp = *rng.pick(&[0u64, 1, 2, 3, 5]);
     let mut sim = Sim::new("raw", gp, dbg);
     let me = sim.pk;
@@ -1154,9 +1373,67 @@ fn case_raw(rng: &mut Rng, dbg: bool, len: usize) -> Rec {
                 if rng.chance(1, 30) {
                     keys.push(me);
                 }
-                sim.create(CreateCall { keys, payments: pays, fee, latest, gp: g }, false);
+                sim.create(CreateCall { keys, payments: pays, fee, latest, gp: g, single: rng.chance(1, 2) }, false);
             }
-            83..=93 => {
+            91..=93 => {
+                // update_from_balance_snapshot: slips as a BalanceSnapshot carries them (parsed from
+                // utxo keys, so fields and cached key agree); duplicates, other keys' slips, every
+                // type; rarely a slip whose key was never generated (the code asserts on it)
+                let mut slips: Vec<Slip> = vec![];
+                let mut keys: Vec<SaitoUTXOSetKey> = sim.w.slips.keys().cloned().collect();
+                keys.sort();
+                for _ in 0..rng.range(0, 5) {
+                    let mut sl = if !keys.is_empty() && rng.chance(1, 3) {
+                        Slip::parse_slip_from_utxokey(&keys[rng.below(keys.len() as u64) as usize]).unwrap()
+                    } else {
+                        let mut x = mk_slip(if rng.chance(9, 10) { &me } else { &pk2 }, amount(rng).max(1), *rng.pick(&tys));
+                        x.block_id = rng.range(1, 9);
+                        x.tx_ordinal = rng.range(0, 3);
+                        x.slip_index = rng.range(0, 2) as u8;
+                        x.generate_utxoset_key();
+                        x
+                    };
+                    if rng.chance(1, 30) {
+                        sl.utxoset_key = [0; 59];
+                        sl.is_utxoset_key_set = false;
+                    }
+                    if rng.chance(1, 5) {
+                        slips.push(sl.clone());
+                    }
+                    slips.push(sl);
+                }
+                let gs: Vec<String> = slips.iter().map(|x| sim.tab.g_slip(x)).collect();
+                let op = format!("OSnapshot {}", gal::list(&gs));
+                let snap = BalanceSnapshot { latest_block_id: 0, latest_block_hash: [0; 32], timestamp: 0, slips };
+                let r = catch_unwind(AssertUnwindSafe(|| sim.w.update_from_balance_snapshot(snap, None)));
+                match r {
+                    Err(e) => sim.wallet_panic(op, panic_msg(e), "snapshot"),
+                    Ok(()) => {
+                        let rows = observe(&sim.w, &mut sim.tab);
+                        sim.rec.push(vec![op], rows);
+                        sim.after_step("update_from_balance_snapshot", false);
+                        sim.rec.snapshots += 1;
+                    }
+                }
+            }
+            94..=95 => {
+                // reset (keys kept)
+                let op = "OReset".to_string();
+                let mut storage = Storage::new(Box::new(world::MemIo::new(Default::default())));
+                let r = catch_unwind(AssertUnwindSafe(|| rt.block_on(sim.w.reset(&mut storage, None, true))));
+                match r {
+                    Err(e) => sim.wallet_panic(op, panic_msg(e), "reset"),
+                    Ok(()) => {
+                        let rows = observe(&sim.w, &mut sim.tab);
+                        sim.rec.push(vec![op], rows);
+                        sim.after_step("reset", false);
+                        if sim.w.get_available_balance() != 0 || !sim.w.slips.is_empty() || !sim.w.unspent_slips.is_empty() {
+                            sim.rec.failures.push("reset left funds in the wallet".to_string());
+                        }
+                    }
+                }
+            }
+            83..=90 => {
                 // staking transaction
                 let sorder: Vec<SaitoUTXOSetKey> = sim.w.staking_slips.iter().cloned().collect();
                 let uorder: Vec<SaitoUTXOSetKey> = sim.w.unspent_slips.iter().cloned().collect();
@@ -1247,7 +1524,7 @@ fn case_raw(rng: &mut Rng, dbg: bool, len: usize) -> Rec {
 }
 
 /// scripted reproductions of the listed findings (unit level, synthetic blocks)
-fn case_scripted(which: u64, dbg: bool) -> Rec {
+fn case_scripted(which: u64, dbg: bool, rt: &tokio::runtime::Runtime) -> Rec {
     let (pk2, _) = keypair(2);
     match which {
         0 => {
@@ -1262,7 +1539,7 @@ fn case_scripted(which: u64, dbg: bool) -> Rec {
             }
             let b5 = mk_block(5, vec![mk_tx(TransactionType::Issuance, vec![], vec![mk_slip(&me, 100, SlipType::Normal)])], &me, true);
             sim.wind(b5, 5, true);
-            sim.create(CreateCall { keys: vec![pk2], payments: vec![500], fee: 0, latest: 5, gp: 5 }, true);
+            sim.create(CreateCall { keys: vec![pk2], payments: vec![500], fee: 0, latest: 5, gp: 5, single: true }, true);
             sim.rec
         }
         1 => {
@@ -1271,7 +1548,7 @@ fn case_scripted(which: u64, dbg: bool) -> Rec {
             let me = sim.pk;
             let b1 = mk_block(1, vec![mk_tx(TransactionType::Issuance, vec![], vec![mk_slip(&me, 1000, SlipType::Normal)])], &me, true);
             sim.wind(b1, 5, true);
-            sim.create(CreateCall { keys: vec![pk2], payments: vec![u64::MAX], fee: 2, latest: 1, gp: 5 }, true);
+            sim.create(CreateCall { keys: vec![pk2], payments: vec![u64::MAX], fee: 2, latest: 1, gp: 5, single: true }, true);
             sim.rec
         }
         2 => {
@@ -1284,7 +1561,29 @@ fn case_scripted(which: u64, dbg: bool) -> Rec {
             }
             let b1 = mk_block(1, txs, &me, true);
             sim.wind(b1, 100, true);
-            sim.create(CreateCall { keys: vec![pk2], payments: vec![300], fee: 0, latest: 1, gp: 100 }, true);
+            sim.create(CreateCall { keys: vec![pk2], payments: vec![300], fee: 0, latest: 1, gp: 100, single: true }, true);
+            sim.rec
+        }
+        4 => {
+            // more than 255 outputs: add_to_slip drops the rest (outputs <= inputs still holds)
+            let mut sim = Sim::new("scripted-outcap", 5, dbg);
+            let me = sim.pk;
+            let b1 = mk_block(1, vec![mk_tx(TransactionType::Issuance, vec![], vec![mk_slip(&me, 1000, SlipType::Normal)])], &me, true);
+            sim.wind(b1, 5, true);
+            sim.create(
+                CreateCall { keys: vec![pk2; 300], payments: vec![1; 300], fee: 5, latest: 1, gp: 5, single: false },
+                true,
+            );
+            sim.rec
+        }
+        5 => {
+            // NFT builder: its own input stays in unspent_slips, the top-up selection takes it again
+            let mut sim = Sim::new("scripted-bound", 5, dbg);
+            let me = sim.pk;
+            let b1 = mk_block(1, vec![mk_tx(TransactionType::Issuance, vec![], vec![mk_slip(&me, 100, SlipType::Normal)])], &me, true);
+            sim.wind(b1, 5, true);
+            let mut r = Rng::new(1);
+            bound_probe(&mut sim, &mut r, rt, 3);
             sim.rec
         }
         _ => {
@@ -1300,7 +1599,7 @@ fn case_scripted(which: u64, dbg: bool) -> Rec {
             sim.wind(b3.clone(), 5, true);
             sim.stack.pop();
             sim.unwind(b3, 5, true);
-            sim.create(CreateCall { keys: vec![pk2], payments: vec![400], fee: 0, latest: 2, gp: 5 }, true);
+            sim.create(CreateCall { keys: vec![pk2], payments: vec![400], fee: 0, latest: 2, gp: 5, single: true }, true);
             sim.rec
         }
     }
@@ -1375,7 +1674,7 @@ async fn case_node(rng: &mut Rng, dbg: bool, gp: u64, extra_len: u64, fees: bool
             if let Err(m) = check_balance(&w) {
                 rec.failures.push(format!("after block {}: {}", b.id, m));
             }
-            match check_ledger(&w, &node.blockchain.utxoset, latest, gp, &committed) {
+            match check_ledger(&w, &node.blockchain.utxoset, latest, gp, &committed, false) {
                 Ok(()) => {}
                 Err((true, m)) => rec.known.push((ID_STALE, format!("after block {}: {}", b.id, m))),
                 Err((false, m)) => rec.failures.push(format!("after block {}: {}", b.id, m)),
@@ -1394,7 +1693,7 @@ async fn case_node(rng: &mut Rng, dbg: bool, gp: u64, extra_len: u64, fees: bool
             if dbg && total >= (1u128 << 64) {
                 continue;
             }
-            let call = CreateCall { keys, payments: pays, fee, latest, gp };
+            let call = CreateCall { keys, payments: pays, fee, latest, gp, single: rng.chance(1, 2) };
             let r = do_create(
                 &mut rec,
                 &mut tab,
@@ -1495,7 +1794,7 @@ fn case_real_blocks(rng: &mut Rng, dbg: bool, gp: u64, blocks: &[Block]) -> Rec 
             let latest = sim.top();
             let (pays, fee) = pick_request(rng, &sim.w, latest, gp);
             let keys = pays.iter().map(|_| pk2).collect();
-            sim.create(CreateCall { keys, payments: pays, fee, latest, gp }, true);
+            sim.create(CreateCall { keys, payments: pays, fee, latest, gp, single: rng.chance(1, 2) }, true);
         }
     }
     let depth = rng.range(1, 3).min(cut as u64) as usize;
@@ -1512,7 +1811,7 @@ fn case_real_blocks(rng: &mut Rng, dbg: bool, gp: u64, blocks: &[Block]) -> Rec 
     if !sim.dead {
         let latest = sim.top();
         let bal = sim.w.get_available_balance();
-        sim.create(CreateCall { keys: vec![pk2], payments: vec![bal / 2 + 1], fee: 0, latest, gp }, true);
+        sim.create(CreateCall { keys: vec![pk2], payments: vec![bal / 2 + 1], fee: 0, latest, gp, single: true }, true);
     }
     let resume = sim.stack.len();
     for b in &blocks[resume..] {
@@ -1538,8 +1837,8 @@ fn main() {
     let rt = tokio::runtime::Builder::new_current_thread().enable_all().build().unwrap();
 
     let mut recs: Vec<Rec> = vec![];
-    for which in 0..4 {
-        recs.push(case_scripted(which, dbg));
+    for which in 0..6 {
+        recs.push(case_scripted(which, dbg, &rt));
     }
     let n_chain = if thorough { 1300 } else { 220 };
     for i in 0..n_chain {
@@ -1548,12 +1847,12 @@ fn main() {
             1 => rng.range(14, 30),
             _ => rng.range(25, 45),
         } as usize;
-        recs.push(case_chain(&mut rng, dbg, len));
+        recs.push(case_chain(&mut rng, dbg, len, &rt));
     }
     let n_raw = if thorough { 1300 } else { 220 };
     for i in 0..n_raw {
         let len = if i % 2 == 0 { rng.range(5, 15) } else { rng.range(15, 40) } as usize;
-        recs.push(case_raw(&mut rng, dbg, len));
+        recs.push(case_raw(&mut rng, dbg, len, &rt));
     }
     let n_node = if thorough { 8 } else { 2 };
     for round in 0..n_node {
@@ -1582,6 +1881,8 @@ fn main() {
         summary.count("steps", &format!("{}", (rec.groups.len() / 10) * 10));
         summary.count("creates_ok", &format!("{}", rec.creates_ok.min(5)));
         summary.count("unwinds", &format!("{}", rec.unwinds.min(4)));
+        summary.count("snapshots", &format!("{}", rec.snapshots.min(3)));
+        summary.count("bound_calls", &format!("{}", rec.bound_calls.min(3)));
         for p in &rec.panics {
             summary.count("panic_site", &format!("{}", p));
         }
